@@ -202,6 +202,13 @@ Proof.
   destruct (sync_pipelining_ho _ _ _ _ Hok Esp) as (Hok2 & Hmf & Hrc & Hq).
   destruct sp as [e|].
   { inversion H; subst. split; [apply noho_hos; apply Hq; reflexivity|congruence]. }
+  destruct (qq_nostart (o_qq o (qcount s2))).
+  { inversion H; subst. split; [apply noho_hos; reflexivity|intros _; exact Hok2]. }
+  destruct (qq_die_hdr (o_qq o (qcount s2))).
+  { match type of H with context [drain_break f ?rr ?ll] => destruct (drain_break f rr ll) as [[alive rerr] r2] eqn:Edr end.
+    cbn [rd] in Edr. pose proof (drain_break_ok _ _ _ _ _ _ Hok2 Edr) as Hok2'.
+    destruct alive; cbn [negb] in H; inversion H; subst; (split; [apply noho_hos; reflexivity|]);
+      first [intros _; exact Hok2'|congruence]. }
   match type of H with context [data_loop f o ?dcv ?rr ?tr] =>
     set (dc := dcv) in H; set (trc := tr) in H; destruct (data_loop f o dc rr trc) as [de r'] eqn:Edl end.
   cbn [rd] in Edl.
